@@ -332,6 +332,12 @@ func (db *DB) Merge() error {
 					skipEntry = true
 				}
 
+				// a record left behind by a transaction that never
+				// committed must not be rewritten as committed data
+				if _, ok := db.committedTxIds[entry.Meta.txID]; !ok {
+					skipEntry = true
+				}
+
 				// check if we have a new entry with same key and bucket
 				if r, _ := db.getRecordFromKey(entry.Meta.bucket, entry.Key); r != nil && !skipEntry {
 					if r.H.fileID > int64(pendingMergeFId) {
